@@ -148,8 +148,11 @@ def rows_changed(before, after):
         elif after[k] != v:
             bad.append("row %r: scale %r -> %r" % (k, v[0], after[k][0]))
     for k, v in after.items():
-        if k in before or _DERIVED_OK.get(k) is v:
+        if k in before:
             continue
+        m = _DERIVED_OK.get(k)
+        if m is not None and m[0] is v and after.get(k[len(m[1]):]) is m[2]:
+            continue            # validated before against the very same base row object
         ok = False
         for p in (k[:1], k[:2]):
             if p in unit_prefixes and k[len(p):] in after:
@@ -157,10 +160,9 @@ def rows_changed(before, after):
                 b = after[k[len(p):]]
                 if b[4] and math.isclose(v[0], pv * b[0], rel_tol=1e-12) and v[1] == b[1] and v[2] == b[2]:
                     ok = True
+                    _DERIVED_OK[k] = (v, p, b)
         if not ok:
             bad.append("new row %r = %r" % (k, v[:3]))
-        else:
-            _DERIVED_OK[k] = v
     return bad[:4]
 
 
@@ -190,6 +192,8 @@ def global_digest():
                     out.append(("unit", mod.__name__, n) + _udig(q))
                 else:
                     out.append(("const", mod.__name__, n, float(q.value)) + _udig(q.units))
+    for n in ("dd", "zap", "foo", "kfoo"):
+        out.append(("unyt namespace has", n, hasattr(unyt, n), hasattr(unyt.unit_symbols, n)))
     conv = [
         ("mile->m", lambda: float((1 * unyt.mile).to("m").value)),
         ("km->cm", lambda: float((1 * unyt.km).to("cm").value)),
@@ -227,6 +231,7 @@ def diff(a, b):
 def run_scenario(base, route, steps):
     """returns (failures [(key, what)], corrupted: bool)"""
     clear_process_caches()
+    gstate = {"digest": PRISTINE_GLOBAL, "rows": dict(DREG.lut), "dlut": dict(DLUT)}
     fails = []
     corrupted = False
     allow = set()
@@ -261,7 +266,6 @@ def run_scenario(base, route, steps):
         return origin.get((actor, victim), "unrelated")
 
     known_foreign = set()
-    gstate = {"digest": PRISTINE_GLOBAL, "rows": dict(DREG.lut), "dlut": dict(DLUT)}
 
     def opclass(opname):
         return "edit" if (opname in EDIT_OPS or opname in DEFAULT_EDITS) else opname
